@@ -83,7 +83,7 @@ Proof. induction p as [|x p IH]; cbn [app skip_string]; [destruct t; reflexivity
 
 (* ---------- the data of a stream with a correct /Length ---------- *)
 Lemma stream_obj_exact body e0 e1 s3 rest :
-  eol_before_data e0 -> eol_after_data e1 -> is_sep s3 ->
+  eol_before_data e0 -> sep_after_data e1 -> is_sep s3 ->
   stream_obj (e0 ++ body ++ e1 ++ Extent.kw_endstream ++ s3 ++ Extent.kw_endobj ++ rest) (Some (Z.of_nat (length body)))
   = Ok (length e0, length body).
 Proof.
@@ -91,6 +91,7 @@ Proof.
   set (data := body ++ e1 ++ Extent.kw_endstream ++ s3 ++ Extent.kw_endobj ++ rest).
   assert (He : endstream_at data (length body) = true).
   { unfold endstream_at, data. rewrite skipn_app_exact by reflexivity.
+    destruct H1 as [->|H1]; [apply has_prefix_self|].
     rewrite drop_space_eol1 by exact H1. apply has_prefix_self. }
   assert (Hlen : (Z.leb 0 (Z.of_nat (length body)) && Z.leb (Z.of_nat (length body)) (Z.of_nat (length data)))%Z = true).
   { unfold data. rewrite app_length. lia. }
@@ -114,7 +115,7 @@ Proof.
                    end = Ok (s3 ++ Extent.kw_endobj ++ rest)).
   { unfold data. rewrite skipn_app_exact by reflexivity.
     assert (Hs : skip_ws (e1 ++ Extent.kw_endstream ++ s3 ++ Extent.kw_endobj ++ rest) = Ok (Extent.kw_endstream ++ s3 ++ Extent.kw_endobj ++ rest))
-      by (destruct H1; reflexivity).
+      by (destruct H1 as [->|[]]; reflexivity).
     rewrite Hs. apply skip_string_self. }
   rewrite Hlen, Nat2Z.id, He. cbn [andb].
   destruct (find_eol_endstream data); rewrite Hafter; rewrite H3;
@@ -188,7 +189,7 @@ Section Agree.
   Definition stream_image (f : bytes) (hdr : nat) (o : Z) (subs : list stmsub) (dchain : trailer) (prev : option Z) : Prop :=
     exists xnum sepA sepB s1 cd s2 e0 e1 s3 w0 w1 w2 rest,
       is_sep1 sepA /\ is_sep1 sepB /\ is_sep s1 /\ is_sep s2 /\ is_sep s3 /\
-      eol_before_data e0 /\ eol_after_data e1 /\ (xnum < 16777216)%N /\
+      eol_before_data e0 /\ sep_after_data e1 /\ (xnum < 16777216)%N /\
       has_dkey dchain k_Length = false /\ has_dkey dchain k_Filter = false /\ has_dkey dchain k_Prev = false /\
       check_xref_dict (dchain ++ prev_entry prev) (length (encode_stm_subs w0 w1 w2 subs)) = Ok (w0, w1, w2, index_of subs) /\
       (0 < w0 + w1 + w2)%nat /\
